@@ -1,11 +1,196 @@
 /-
   C15 — Search algorithms recover their state from history at every crash point.
+  Property theorems only (model: PgModel/Gen.lean; lemmas: PgProofs/Gen.lean; structural variant of
+  the current source: PgGen/C15Quirks.lean, regenerated on every run by translate/t_c15.py).
+
+  Reading guide. `runLive env a run` is the uninterrupted instance after the events `run`
+  (`propose | feedback i r`, any order, any subset fed back) together with the history the backend
+  has persisted (`.hist`: proposals in order, each DNA with the metadata the live algorithm wrote,
+  and the reward if it arrived).  `recover env a (setup a) hist` is the fresh instance.  All theorems
+  quantify over ALL runs; since every prefix of a run is a run (`C15_every_crash_point`), this is
+  the "every crash point" quantifier.
 -/
 import PgGen.C15Quirks
+import PgProofs.Gen
 namespace Pg.C15
 
 /-- Generated obligation: the current source has the repaired shape of `Deduping.recover/_replay`
-and `Evolution.recover`. -/
+and `Evolution.recover` (fixes/C15-F22.patch, fixes/C15-F35.patch). -/
 theorem C15_quirks_patched : currentQuirks = Quirks.patched := by decide
+
+/-- Crash points are prefixes, and the live instance stopped after `k` events is the live instance
+of the run `run.take k`: every theorem below, stated for all runs, holds at every crash point. -/
+theorem C15_every_crash_point (env : Env) (a : Algo) (run : List Event) (k : Nat) :
+    runLive env a (run.take k) = (run.take k).foldl (step env a) ⟨setup a, []⟩ := rfl
+
+/-! ### Sweeping and Random -/
+
+/-- Sweeping: the recovered instance is in *exactly* the state of the uninterrupted one (counters
+and last proposed DNA), for every run. -/
+theorem C15_recover_sweeping (env : Env) (run : List Event) :
+    recover env .sweeping (setup .sweeping) (runLive env .sweeping run).hist
+      = .ok (runLive env .sweeping run).st := by
+  rw [live_sweeping env run]
+  simp only [recover, setup, baseRecover_sweeping, Nat.zero_add]
+
+/-- Seeded Random: exactly the same state (counters and position in the PRNG stream). -/
+theorem C15_recover_random_seeded (env : Env) (seed : Nat) (run : List Event) :
+    recover env (.random seed true) (setup (.random seed true)) (runLive env (.random seed true) run).hist
+      = .ok (runLive env (.random seed true) run).st := by
+  rw [live_random env seed true run]
+  simp only [recover, setup, baseRecover_random, Nat.zero_add, ↓reduceIte]
+
+/-- Unseeded Random: the counters are recovered (the position in the process-wide PRNG is not part
+of the history and is not claimed). -/
+theorem C15_recover_random_unseeded (env : Env) (seed : Nat) (run : List Event) :
+    ∃ s, recover env (.random seed false) (setup (.random seed false))
+           (runLive env (.random seed false) run).hist = .ok s
+      ∧ s.np = (runLive env (.random seed false) run).st.np
+      ∧ s.nf = (runLive env (.random seed false) run).st.nf := by
+  refine ⟨.random (runLive env (.random seed false) run).hist.length
+      (fedCount (runLive env (.random seed false) run).hist) 0, ?_, ?_, ?_⟩
+  · simp only [recover, setup, baseRecover_random, Nat.zero_add, Bool.false_eq_true, ↓reduceIte]
+  · rw [live_random env seed false run]; rfl
+  · rw [live_random env seed false run]; rfl
+
+/-- Continuation, Sweeping: the next `m` proposals (and every later state) of the recovered
+instance are those of the uninterrupted one. -/
+theorem C15_continue_sweeping (env : Env) (run : List Event) (m : Nat) :
+    (recover env .sweeping (setup .sweeping) (runLive env .sweeping run).hist).map
+        (proposeN env .sweeping m)
+      = .ok (proposeN env .sweeping m (runLive env .sweeping run).st) := by
+  rw [C15_recover_sweeping]; rfl
+
+/-- Continuation, seeded Random (same oracle tail). -/
+theorem C15_continue_random_seeded (env : Env) (seed : Nat) (run : List Event) (m : Nat) :
+    (recover env (.random seed true) (setup (.random seed true))
+        (runLive env (.random seed true) run).hist).map (proposeN env (.random seed true) m)
+      = .ok (proposeN env (.random seed true) m (runLive env (.random seed true) run).st) := by
+  rw [C15_recover_random_seeded]; rfl
+
+/-! ### Deduping -/
+
+/-- The inner generator's `recover` never raises (holds for Sweeping and Random, below). -/
+def RecoverTotal (env : Env) (inner : Algo) : Prop :=
+  ∀ h : Hist, ∃ s, recover env inner (setup inner) h = .ok s
+
+theorem recoverTotal_sweeping (env : Env) : RecoverTotal env .sweeping :=
+  fun h => by simp only [recover, setup, baseRecover_sweeping]; exact ⟨_, rfl⟩
+
+theorem recoverTotal_random (env : Env) (seed : Nat) (seeded : Bool) : RecoverTotal env (.random seed seeded) :=
+  fun h => by simp only [recover, setup, baseRecover_random]; exact ⟨_, rfl⟩
+
+/-- FULL statement one would like: for every inner generator, `Deduping(inner)` recovers its
+counters and its de-duplication memory (the cache, as a dict in insertion order). -/
+def C15_recover_dedup_Full (env : Env) : Prop :=
+  ∀ (inner : Algo) (hid md ma : Nat) (au : Bool) (run : List Event),
+    ∃ np nf si si' c,
+      (runLive env (.deduping inner hid md ma au) run).st = .deduping np nf si c
+      ∧ recover env (.deduping inner hid md ma au) (setup (.deduping inner hid md ma au))
+          (runLive env (.deduping inner hid md ma au) run).hist = .ok (.deduping np nf si' c)
+
+/-- PARTIAL (what holds of the repaired source): de-duplication over a generator that takes no
+feedback and whose own `recover` is total (Sweeping, Random) recovers counters and cache exactly, for
+every run — rejected duplicates, in-flight proposals and exhausted attempts included. -/
+theorem C15_recover_dedup_partial (env : Env) (hq : env.q.dedupForwardsReplay = false)
+    (inner : Algo) (hid md ma : Nat) (au : Bool)
+    (hnf : needsFeedback inner = false) (hrec : RecoverTotal env inner) (run : List Event) :
+    ∃ np nf si si' c,
+      (runLive env (.deduping inner hid md ma au) run).st = .deduping np nf si c
+      ∧ recover env (.deduping inner hid md ma au) (setup (.deduping inner hid md ma au))
+          (runLive env (.deduping inner hid md ma au) run).hist = .ok (.deduping np nf si' c) := by
+  obtain ⟨⟨si, hst⟩, hkeyed⟩ := live_dedup_nofb env inner hid md ma au hnf run
+  obtain ⟨si', hsi'⟩ := hrec (runLive env (.deduping inner hid md ma au) run).hist
+  refine ⟨_, _, si, si', _, hst, ?_⟩
+  simp only [recover, hq, Bool.false_eq_true, ↓reduceIte, setup, hsi']
+  rw [baseRecover_dedup_nofb env inner hid md ma au hq hnf _ hkeyed]
+  simp only [Nat.zero_add]
+
+/-- …instantiated for the current source (obligation `C15_quirks_patched`) and the two base
+generators. -/
+theorem C15_recover_dedup_sweeping (env : Env) (hq : env.q = currentQuirks) (hid md ma : Nat) (au : Bool)
+    (run : List Event) :
+    ∃ np nf si si' c,
+      (runLive env (.deduping .sweeping hid md ma au) run).st = .deduping np nf si c
+      ∧ recover env (.deduping .sweeping hid md ma au) (setup (.deduping .sweeping hid md ma au))
+          (runLive env (.deduping .sweeping hid md ma au) run).hist = .ok (.deduping np nf si' c) :=
+  C15_recover_dedup_partial env (by rw [hq, C15_quirks_patched]; rfl) .sweeping hid md ma au rfl
+    (recoverTotal_sweeping env) run
+
+theorem C15_recover_dedup_random (env : Env) (hq : env.q = currentQuirks) (seed : Nat) (seeded : Bool)
+    (hid md ma : Nat) (au : Bool) (run : List Event) :
+    ∃ np nf si si' c,
+      (runLive env (.deduping (.random seed seeded) hid md ma au) run).st = .deduping np nf si c
+      ∧ recover env (.deduping (.random seed seeded) hid md ma au)
+          (setup (.deduping (.random seed seeded) hid md ma au))
+          (runLive env (.deduping (.random seed seeded) hid md ma au) run).hist
+        = .ok (.deduping np nf si' c) :=
+  C15_recover_dedup_partial env (by rw [hq, C15_quirks_patched]; rfl) (.random seed seeded) hid md ma au rfl
+    (recoverTotal_random env seed seeded) run
+
+/-! ### Counterexamples (replayed on the real code by the findings witnesses) -/
+
+/-- A small concrete world: 6 points, sweeping initialiser, reproduction = one child `step mod 6`. -/
+def wEnv (q : Quirks) : Env :=
+  { space := [0, 1, 2, 3, 4, 5], draw := fun _ pos => (pos * 5 + 3) % 6, hash := fun hid d => if hid = 0 then d else d % hid,
+    repro := fun _ _ step => [step % 6], update := fun p _ => p, q := q }
+
+def wDedupEvo : Algo := .deduping (.evolution .sweeping (some 2)) 6 1 3 false
+
+/-- propose/feedback × 4, strictly sequential -/
+def wRun8 : List Event :=
+  [.propose, .feedback 0 1, .propose, .feedback 1 2, .propose, .feedback 2 3, .propose, .feedback 3 4]
+
+def innerSummary : Except Err St → Option (Nat × Nat × Bool × Nat)
+  | .ok (.deduping _ _ (.evolution np nf _ ini _ pop _) _) => some (np, nf, ini, pop.length)
+  | _ => none
+
+/-- F22 (pinned source): after `Deduping(Evolution)` recovers, the wrapped evolution has seen
+0 proposals / 0 feedbacks and is still initialising, whereas the uninterrupted one has 4 / 4 and is
+evolving.  Hence the FULL statement is false of the pinned source. -/
+theorem C15_F22_counterexample_pinned :
+    innerSummary (.ok (runLive (wEnv .pinned) wDedupEvo wRun8).st) = some (4, 4, true, 4)
+    ∧ innerSummary (recover (wEnv .pinned) wDedupEvo (setup wDedupEvo) (runLive (wEnv .pinned) wDedupEvo wRun8).hist)
+        = some (0, 0, false, 4) := by
+  decide
+
+def cacheSummary : Except Err St → Option Cache
+  | .ok (.deduping _ _ _ c) => some c
+  | _ => none
+
+/-- F22b (pinned source): `_replay` caches a `None` reward for a proposal whose feedback never
+arrived; the live path caches on feedback only. -/
+theorem C15_F22b_counterexample_pinned :
+    cacheSummary (.ok (runLive (wEnv .pinned) wDedupEvo [.propose]).st) = some []
+    ∧ cacheSummary (recover (wEnv .pinned) wDedupEvo (setup wDedupEvo) (runLive (wEnv .pinned) wDedupEvo [.propose]).hist)
+        = some [(0, [none])] := by
+  decide
+
+theorem C15_recover_dedup_Full_false_pinned : ¬ C15_recover_dedup_Full (wEnv .pinned) := by
+  intro h
+  obtain ⟨np, nf, si, si', c, h1, h2⟩ := h (.evolution .sweeping (some 2)) 6 1 3 false [.propose]
+  have e1 := (C15_F22b_counterexample_pinned).1
+  have e2 := (C15_F22b_counterexample_pinned).2
+  unfold wDedupEvo at e1 e2
+  rw [h1] at e1
+  rw [h2] at e2
+  simp only [cacheSummary, Option.some.injEq] at e1 e2
+  rw [e1] at e2
+  cases e2
+
+/-- The same two runs on the repaired source: the wrapped evolution and the cache are recovered. -/
+theorem C15_F22_fixed :
+    innerSummary (recover (wEnv .patched) wDedupEvo (setup wDedupEvo) (runLive (wEnv .patched) wDedupEvo wRun8).hist)
+        = innerSummary (.ok (runLive (wEnv .patched) wDedupEvo wRun8).st)
+    ∧ cacheSummary (recover (wEnv .patched) wDedupEvo (setup wDedupEvo) (runLive (wEnv .patched) wDedupEvo [.propose]).hist)
+        = cacheSummary (.ok (runLive (wEnv .patched) wDedupEvo [.propose]).st) := by
+  decide
+
+/-! Non-vacuity: the hypotheses of the partial theorem are satisfiable by the current source, and a
+run with a rejected duplicate, an in-flight proposal and feedback exists. -/
+example : (wEnv currentQuirks).q.dedupForwardsReplay = false := by decide
+example : needsFeedback (.deduping .sweeping 2 1 3 false) = false := rfl
+example : (runLive (wEnv .patched) (.deduping .sweeping 2 1 3 false) [.propose, .propose, .feedback 0 5, .propose]).hist.length = 2 := by
+  decide
 
 end Pg.C15
